@@ -56,9 +56,6 @@ Fixpoint outs_agree (a : list (out val * Z)) (b : list (out val)) : bool :=
   | (x, _) :: a', y :: b' => out_eqb val val_eqb x y && outs_agree a' b'
   | _, _ => false
   end.
-Fixpoint first_flag (a : list (out val * Z)) : Z :=
-  match a with [] => 0 | (_, f) :: r => if f =? 0 then first_flag r else f end.
-
 Definition judge (c : case) : bool * bool * Z :=
   match c with
   | Case rootpg np keys steps =>
@@ -66,7 +63,7 @@ Definition judge (c : case) : bool * bool * Z :=
       let ops := map (fun s => to_op tbl (fst s)) steps in
       let obs := map (fun s => to_out tbl (snd s)) steps in
       let mres := m_run rootpg np ops in
-      (outs_agree mres obs, spec_run val val_len val_eqb [] (combine ops obs), first_flag mres)
+      (outs_agree mres obs, spec_run val val_len val_eqb [] (combine ops obs), first_flag val mres)
   end.
 
 (* does the model reproduce every result the implementation returned? *)
